@@ -288,7 +288,7 @@ def clustering (H : Mat) (sy : Vec) (sched : List (List Int)) : Clustered :=
 /-! ### `Peeling_Tree` -/
 
 /-- `self.H`: `H` restricted to the member qubits and stabilizers of the cluster -/
-def subH (H : Mat) (stabs qubits : Nat → Bool) (s q : Nat) : Bool := hb H s q && qubits q && stabs s
+def subH (H : Mat) (stabs qubits : Nat → Bool) (s q : Nat) : Bool := stabs s && (qubits q && hb H s q)
 
 /-- `(H @ H.T).astype(bool)` of the `uint8` sub-matrix: the number of shared member qubits,
     reduced mod 256 by the `uint8` product, is nonzero -/
@@ -356,13 +356,23 @@ structure PeelSt where
   corr : List Nat
   rounds : List PeelRound
 
+/-- `f` on `0 … k-1` as an array (built once; only there to make the executable model fast:
+    `tabGet (tabArr k f) f = f`, see `Proofs/UnionFindBasic.lean`) -/
+def tabArr {α : Type} (k : Nat) (f : Nat → α) : Array α := Array.ofFn (n := k) fun i => f i.val
+
+def tabGet {α : Type} (a : Array α) (f : Nat → α) (i : Nat) : α := if h : i < a.size then a[i] else f i
+
+/-- `syndrome[curr_leaves_ind] = False` -/
+def clearLeaves (f : Nat → Bool) (leaves : List Nat) (i : Nat) : Bool :=
+  if i ∈ leaves then false else f i
+
 /-- `_update_syndrome`: every parent's bit is xored with its leaf's bit (in `zip` order), then
     the leaves are cleared.  (The code goes through a dict keyed by parent, which reads the old
-    array once per key and writes back at the end: the same function.) -/
+    array once per key and writes back at the end: the same function.)
+    (Written as a partial application so that the compiled model evaluates the fold once.) -/
 def updateSyndrome (syn : Nat → Bool) (parents leaves : List Nat) : Nat → Bool :=
-  let syn1 := (parents.zip (leaves.map syn)).foldl
-    (fun (f : Nat → Bool) (pl : Nat × Bool) => fun i => if i = pl.1 then (f i != pl.2) else f i) syn
-  fun i => if i ∈ leaves then false else syn1 i
+  clearLeaves ((parents.zip (leaves.map syn)).foldl
+    (fun (f : Nat → Bool) (pl : Nat × Bool) => fun i => if i = pl.1 then (f i != pl.2) else f i) syn) leaves
 
 /-- strictly ascending insertion (for `np.unique`) -/
 def insertU (x : Nat) : List Nat → List Nat
@@ -384,7 +394,10 @@ def peelRound (H : Mat) (stabs qubits : Nat → Bool) (st : PeelSt) : Except Pee
       if st.syn pc.2 then
         (List.range (ncols H)).filter fun q => subH H stabs qubits pc.1 q && subH H stabs qubits pc.2 q
       else []
-    let syn' := updateSyndrome st.syn parents st.leaves
+    -- tabulated once per round: as a bare function the compiled model would redo the update on
+    -- every lookup
+    let synA := tabArr m (updateSyndrome st.syn parents st.leaves)
+    let syn' := tabGet synA (updateSyndrome st.syn parents st.leaves)
     -- child_to_p[curr_leaves_ind, :] = 0
     let S' : Nat → Nat → Bool := fun p c => if c ∈ st.leaves then false else st.S p c
     -- np.unique(parents[np.where((~child_to_p)[:, parents].all(axis=0))[0]])
@@ -410,14 +423,28 @@ structure TreeTrace where
   rounds : List PeelRound
   corr : List Nat
 
+/-- a Boolean matrix on `0 … k-1` squared as a flat array (same purpose as `tabArr`) -/
+def tabArr2 (k : Nat) (f : Nat → Nat → Bool) : Array Bool :=
+  Array.ofFn (n := k * k) fun i => f (i.val / k) (i.val % k)
+
+def tabGet2 (a : Array Bool) (k : Nat) (f : Nat → Nat → Bool) (i j : Nat) : Bool :=
+  if h : i < k ∧ j < k ∧ i * k + j < a.size then a[i * k + j] else f i j
+
 /-- `Peeling_Tree(r, self, s, q).peel()` for one root -/
 def peelTree (H : Mat) (sy : Vec) (sPar qPar : Nat → Int) (r : Nat) : Except PeelErr TreeTrace :=
   let m := H.length
-  let stabs : Nat → Bool := fun s => decide (s < m) && decide (sPar s = (r : Int))
-  let qubits : Nat → Bool := fun q => decide (q < ncols H) && decide (qPar q = (r : Int))
+  -- the two membership tests are tabulated once per tree (`_s_parents`, `_q_parents` are long
+  -- chains of updates in the model)
+  let sA := tabArr m fun s => decide (s < m) && decide (sPar s = (r : Int))
+  let qA := tabArr (ncols H) fun q => decide (q < ncols H) && decide (qPar q = (r : Int))
+  let stabs : Nat → Bool := tabGet sA fun s => decide (s < m) && decide (sPar s = (r : Int))
+  let qubits : Nat → Bool := tabGet qA fun q => decide (q < ncols H) && decide (qPar q = (r : Int))
   match buildTree H stabs qubits r with
   | none => .error .treeDiverges
-  | some (S, leaves) =>
+  | some (S0, leaves) =>
+    -- the tree matrix is tabulated once (in the model it is a chain of updates over `H Hᵀ`)
+    let SA := tabArr2 m S0
+    let S : Nat → Nat → Bool := tabGet2 SA m S0
     let syn : Nat → Bool := fun s => sy.getD s 0 != 0 && stabs s
     match peelLoop H stabs qubits (m + 1) ⟨S, syn, leaves, [], []⟩ with
     | .error e => .error e
